@@ -8,6 +8,7 @@ and applies the stated combination rules (best-of, rounds, actions, linked adapt
 Only the combination logic is modelled here; nothing is taken from cutadapt.pipeline/steps/cli.
 """
 import re
+from fractions import Fraction
 
 from . import refops
 
@@ -430,7 +431,8 @@ class Model:
         if o.get("max_n") is not None:
             c = refops.n_count(rec.seq)
             mx = o["max_n"]
-            P["too_many_n"] = (len(rec.seq) > 0 and c > mx * len(rec.seq)) if mx < 1 else c > mx
+            # a value below 1 is a fraction of the read length: compared exactly (the decimal the user typed), not in floating point
+            P["too_many_n"] = (len(rec.seq) > 0 and Fraction(c, len(rec.seq)) > Fraction(repr(mx))) if mx < 1 else c > mx
         else:
             P["too_many_n"] = None
         if o.get("max_ee") is not None and rec.qual is not None:
